@@ -311,19 +311,73 @@ class Boom(Exception):
     pass
 
 
-def gen_act(rng, depth=0):
+def gen_act(rng, depth=0, dyn=False):
     r = rng.random()
     if depth > 3 or r < 0.35:
-        return rng.choice(['skip', 'execute', ['capped', rng.randrange(3)], ['capped', 0], 'raise', 'skip'])
-    if r < 0.65:
-        return ['seq', gen_act(rng, depth + 1), gen_act(rng, depth + 1)]
-    return [rng.choice(['predefine', 'dynDepth']), gen_act(rng, depth + 1)]
+        leaf = ['skip', 'execute', ['capped', rng.randrange(3)], ['capped', 0], 'raise', 'skip']
+        if dyn:
+            # inside a dynamic parameter lookup: the call-site search is what observes the counter
+            leaf += [['searchArgs', rng.choice([1, 6, 7, 10, 11, 12, 20, 21, 25])]] * 4
+        return rng.choice(leaf)
+    if r < 0.6:
+        return ['seq', gen_act(rng, depth + 1, dyn), gen_act(rng, depth + 1, dyn)]
+    if r < 0.75:
+        return ['predefine', gen_act(rng, depth + 1, dyn)]
+    # a dynamic parameter lookup of one of three functions: nesting the same one is a recursion that
+    # the guard blocks
+    return ['dynParam', rng.randrange(3), gen_act(rng, depth + 1, True)]
+
+
+class FakeModuleContext:
+    def __init__(self, st):
+        self.inference_state = st
+
+    def create_context(self, name):
+        return self
+
+
+class SearchFakes:
+    """lets the real dynamic_params._search_function_arguments run on synthetic call sites: the
+    three helpers that need a syntax tree are replaced, the loop with the cut-off is the real one"""
+    NAMES = ['_get_potential_nodes', '_check_name_for_execution', 'get_module_contexts_containing_name']
+
+    def __enter__(self):
+        import ast
+        from jedi.inference import dynamic_params
+        self.mod = dynamic_params
+        self.old = [getattr(dynamic_params, n) for n in self.NAMES]
+        dynamic_params._get_potential_nodes = \
+            lambda module_value, string_name: iter([(('site', k), None) for k in range(self.sites)])
+        dynamic_params._check_name_for_execution = \
+            lambda inference_state, context, compare_node, name, trailer: iter([name])
+        dynamic_params.get_module_contexts_containing_name = \
+            lambda inference_state, module_contexts, name, limit_reduction=1: module_contexts
+        # with proposed_fixes/c16-dynamic-params-depth-in-memo-key.diff the depth is a 4th argument
+        with open(dynamic_params.__file__, encoding='utf-8') as f:
+            tree = ast.parse(f.read())
+        fn = [n for n in tree.body if isinstance(n, ast.FunctionDef) and n.name == '_search_function_arguments'][0]
+        self.with_depth = len(fn.args.args) == 4
+        return self
+
+    def search(self, st, sites):
+        self.sites = sites
+        self.n = getattr(self, 'n', 0) + 1
+        funcdef = C15.FakeFuncdef(5000 + self.n)
+        args = (FakeModuleContext(st), funcdef, 'some_function')
+        if self.with_depth:
+            args += (st.dynamic_params_depth,)
+        return len(self.mod._search_function_arguments(*args))
+
+    def __exit__(self, *a):
+        for n, v in zip(self.NAMES, self.old):
+            setattr(self.mod, n, v)
 
 
 def run_machine_impl(queries, cap_unused=None):
     """executes the query bodies with the real primitives on one fake InferenceState"""
     from jedi.inference import InferenceState, syntax_tree, dynamic_params
     from jedi.inference.context import AbstractContext
+    from jedi.inference.base_value import NO_VALUES
     st = C15.FakeState()
     st.dynamic_params_depth = 0
     st.flow_analysis_enabled = True
@@ -331,11 +385,12 @@ def run_machine_impl(queries, cap_unused=None):
     holder = type('Ctx', (), {})()
     holder.predefined_names = {}
     nodes = {}
+    dyn_nodes = {}
     marker = object()
     capped = syntax_tree._limit_value_infers(lambda context: marker)
-    fvals = {}
+    boundary = []
 
-    def run(act, seen, uid=[0]):
+    def run(act, seen, fakes, uid=[0]):
         if act == 'skip' or act == 'memoise':
             return
         if act == 'raise':
@@ -347,8 +402,8 @@ def run_machine_impl(queries, cap_unused=None):
             return
         kind = act[0]
         if kind == 'seq':
-            run(act[1], seen)
-            run(act[2], seen)
+            run(act[1], seen, fakes)
+            run(act[2], seen, fakes)
         elif kind == 'capped':
             node = nodes.setdefault(act[1], C15.FakeFuncdef(act[1]))
             c = C15.FakeContext(st, node, False)
@@ -356,47 +411,77 @@ def run_machine_impl(queries, cap_unused=None):
         elif kind == 'predefine':
             uid[0] += 1
             with AbstractContext.predefine_names(holder, ('scope', uid[0]), {}):
-                run(act[1], seen)
-        elif kind == 'dynDepth':
-            uid[0] += 1
+                run(act[1], seen, fakes)
+        elif kind == 'dynParam':
             fv = type('FV', (), {})()
             fv.inference_state = st
-            fv.tree_node = C15.FakeFuncdef(1000 + uid[0])
-            dynamic_params._avoid_recursions(lambda function_value, param_index: run(act[1], seen))(fv, 0)
+            fv.tree_node = dyn_nodes.setdefault(act[1], C15.FakeFuncdef(1000 + act[1]))
+            entered = []
+
+            def lookup(function_value, param_index):
+                entered.append(True)
+                seen.append(True)
+                run(act[2], seen, fakes)
+                return marker
+            r = dynamic_params._avoid_recursions(lookup)(fv, 0)
+            if not entered:
+                seen.append(False)
+                if r is not NO_VALUES:
+                    raise common.InfraError('blocked _avoid_recursions did not return NO_VALUES')
+        elif kind == 'searchArgs':
+            k = fakes.search(st, act[1])
+            seen.extend([True] * k + ([False] if k < act[1] else []))
+        else:
+            raise common.InfraError('unknown act %r' % (act,))
     out = []
-    for q in queries:
-        InferenceState.reset_recursion_limitations(st)
-        fresh = (st.execution_recursion_detector._execution_count == 0
-                 and st.recursion_detector.pushed_nodes == [])
-        seen = []
-        raised = False
-        try:
-            run(q, seen)
-        except Boom:
-            raised = True
-        out.append([raised, seen, fresh])
+    with SearchFakes() as fakes:
+        for q in queries:
+            InferenceState.reset_recursion_limitations(st)
+            fresh = (st.execution_recursion_detector._execution_count == 0
+                     and st.recursion_detector.pushed_nodes == [])
+            seen = []
+            raised = False
+            try:
+                run(q, seen, fakes)
+            except Boom:
+                raised = True
+            out.append([raised, seen, fresh])
+            boundary.append(st.dynamic_params_depth)
     return {'flow': st.flow_analysis_enabled, 'analysis': st.is_analysis,
             'predefined': len(holder.predefined_names), 'dyn': st.dynamic_params_depth,
-            'queries': [[r, s] for r, s, f in out]}, all(f for r, s, f in out), st
+            'pushed': len(st.recursion_detector.pushed_nodes),
+            'queries': [[r, s] for r, s, f in out]}, all(f for r, s, f in out), st, boundary
 
 
 def stream_machine(ctx, reqs, cap, factor):
     rng = ctx.subrng('machine')
     cases = []
+    fixed = [
+        # a lookup that re-enters itself (blocked), then a search over 12 call sites in the next query
+        [['dynParam', 0, ['dynParam', 0, 'skip']], ['dynParam', 1, ['searchArgs', 12]]],
+        [['dynParam', 0, ['seq', ['dynParam', 0, 'skip'], 'raise']], ['dynParam', 1, ['searchArgs', 21]]],
+        [['dynParam', 0, ['dynParam', 1, ['dynParam', 0, ['searchArgs', 25]]]], ['dynParam', 0, ['searchArgs', 25]]],
+        [['dynParam', 2, ['dynParam', 1, ['searchArgs', 11]]], ['searchArgs', 30]],
+    ]
     for i in range(ctx.size(400, 6000)):
-        nq = rng.randint(1, 8)
-        queries = [gen_act(rng) for _ in range(nq)]
-        if rng.random() < 0.05:
-            queries = [['capped', 0]] * (cap + 2)
-        impl, fresh, st = run_machine_impl(queries)
+        if i < len(fixed):
+            queries = fixed[i]
+        else:
+            nq = rng.randint(1, 8)
+            queries = [gen_act(rng) for _ in range(nq)]
+            if rng.random() < 0.05:
+                queries = [['capped', 0]] * (cap + 2)
+        impl, fresh, st, boundary = run_machine_impl(queries)
         case = {'queries': queries if len(queries) <= 8 else 'capped0 x %d' % len(queries)}
         # direct oracle of query_boundary_inv on the real object
         if not fresh:
             ctx.fail('machine', 'a query body did not start with fresh recursion bookkeeping', case, observed=impl)
         if not (impl['flow'] is True and impl['analysis'] is False and impl['predefined'] == 0 and impl['dyn'] == 0
-                and st.recursion_detector.pushed_nodes == []):
-            ctx.fail('machine', 'a switch is not back at its default after the queries', case,
-                     expected={'flow': True, 'analysis': False, 'predefined': 0, 'dyn': 0}, observed=impl)
+                and st.recursion_detector.pushed_nodes == [] and not any(boundary)):
+            # the mechanism (theorem query_boundary_inv) fails on the real primitives; whether the
+            # property fails on a real query is decided by the session streams
+            ctx.tie_broken('state:query_boundary_inv (machine)',
+                           short({'case': case, 'state': impl, 'dynamic_params_depth after each query': boundary}, 1200))
         cases.append((('machine', case), impl))
         reqs.append({'op': 'session', 'cap': cap, 'factor': factor, 'queries': queries})
     return cases
@@ -923,17 +1008,27 @@ def run(ctx):
     reqs = []
     cases = []
     cap, factor = source_cap()
-    cases += stream_sort(ctx, reqs)
-    cases += stream_machine(ctx, reqs, cap, factor)
-    with PrivateCache() as pcache, SearchHook():
-        stream_order(ctx)
-        stream_session(ctx, cap)
-        stream_dynsession(ctx, cap)
+    import time
+    walls = []
+
+    def timed(name, fn, *a):
+        t0 = time.time()
         try:
-            stream_fault(ctx)
+            return fn(*a)
+        finally:
+            walls.append('%s=%.1fs' % (name, time.time() - t0))
+    cases += timed('sort', stream_sort, ctx, reqs)
+    cases += timed('machine', stream_machine, ctx, reqs, cap, factor)
+    with PrivateCache() as pcache, SearchHook():
+        timed('order', stream_order, ctx)
+        timed('session', stream_session, ctx, cap)
+        timed('dynsession', stream_dynsession, ctx, cap)
+        try:
+            timed('fault', stream_fault, ctx)
         except common.TieBroken as e:
             ctx.tie_broken('hook:' + e.what, e.detail)
-        stream_subproc(ctx, pcache)
+        timed('subproc', stream_subproc, ctx, pcache)
+    ctx.notes.append('wall per stream: ' + ' '.join(walls))
     if ctx.model_ok:
         answers = common.run_driver_parallel('C16', reqs)
         compare(ctx, cases, answers)
